@@ -615,7 +615,11 @@ class C20(fw.Prop):
             "judged renderings go through render_dot(), render_dot(config=None), DotRenderer().render, "
             "DotRenderer(None), DotRenderer(RenderConfig()), an explicit configuration, a configuration object re-used "
             "with changed attributes, a renderer made at the start of the history and left alone; every two renderings of a case under equal options must be the same drawing, "
-            "colours and names included (determined_b)")
+            "colours and names included (determined_b).  "
+            "40% of all cases get metadata put on after building (h[node].metadata[key] = value): the root's \"name\" "
+            "(the graph identifier render.py reads; identifiers of every spelling DOT quotes, now and then not a string), "
+            "\"name\" and look-alike keys (label, id, title, color) on the root and on inner nodes, string and non-string "
+            "values; the before/after comparison of the HUGR covers the metadata dict of every node")
     trusted = ["harness/props/c20.py: tokenising parser of the DOT text the graphviz package emits and of the HTML-like "
                "node labels (insensitive to whitespace, quoting style, attribute and statement order, styling attributes "
                "and where they are set - node/edge/graph default statements are applied with DOT's scoping -, inline "
@@ -685,6 +689,13 @@ class C20(fw.Prop):
                       "cfgs": [0] + r5.sample(range(1, 6), r5.randint(0, 1)),
                       "hist": gen_history(r5, 2 if tier == "quick" else 3)})
             cases.append(c)
+        # seeded round 6: metadata on the ROOT and on inner nodes under the keys render.py reads ("name" of the root =
+        # graph identifier) and look-alikes, put on after building (h[node].metadata[key] = value); a sixth generator,
+        # so that the five streams above stay what they were (the same programs, some now decorated)
+        r6 = random.Random(r5.randrange(1 << 30))
+        for c in cases:
+            if r6.random() < 0.4:
+                c["md"] = gen_md(r6)
         return cases
 
     def corpus(self, ctx):
@@ -750,6 +761,15 @@ class C20(fw.Prop):
                 {"k": "cfgobj", "ci": 0, "q": True, "pal": "nb", "draw": "h"}, {"k": "draw", "path": "fresh"},
                 {"k": "draw", "path": "recfg", "ci0": 1, "ci": 2}, {"k": "draw", "path": "explicit", "ci": 4},
                 {"k": "explicit", "ci": 5, "draw": "warm"}, {"k": "draw", "path": "dotnone"}]},
+            # seeded round 6 (C20-j): rendering leaves the metadata of every node alone - also the root's "name" entry,
+            # which render.py reads as the graph identifier
+            {"prog": "order_reload", "reload": False, "cfgs": [0, 1],
+             "md": [["root", "name", "simple_id"], ["root", "author", "me"], [3, "name", "not"]]},      # the demo of C20-j
+            {"prog": "divmod_partial", "reload": True, "cfgs": [0], "md": [["root", "name", "a b"]]},
+            {"prog": "call_nested", "reload": False, "shared": True, "cfgs": [0, 3],
+             "md": [["root", "name", "digraph"], [1, "name", "f"], [2, "label", "x"]]},
+            # known finding on the unchanged tree: a root name that is not a string makes render_dot raise TypeError
+            {"prog": "order_reload", "reload": False, "cfgs": [0], "md": [["root", "name", 5]]},
         ]
 
     def build(self, case):
@@ -820,6 +840,11 @@ class C20(fw.Prop):
         from hugr.hugr import Hugr
         from hugr.hugr.render import PALETTE, RenderConfig, DotRenderer
         h, p = self.build(case)
+        for sel, key, val in case.get("md", []):
+            nodes = list(h)
+            nd = h[h.root if sel == "root" else nodes[sel % len(nodes)]]
+            # a new dict: the builders keep the dict they were given, which belongs to the program data of the case
+            nd.metadata = {**nd.metadata, key: val}
         if case.get("reload"):
             try:
                 h = Hugr.load_json(h.to_json())
@@ -832,6 +857,8 @@ class C20(fw.Prop):
                 return {"error": "resolve:" + type(e).__name__, "prog": p}
         before = json.dumps(hobs.dump(h), sort_keys=True, default=repr)
         view = hugr_view(h)
+        rn = h[h.root].metadata.get("name")
+        odd_name = bool(rn) and not isinstance(rn, str)       # known finding: render.py hands it to graphviz as it is
         rs = []
         for ci in case["cfgs"]:
             pal, q = CONFIGS[ci]
@@ -865,7 +892,8 @@ class C20(fw.Prop):
         for st in case.get("hist", []):
             self.hist_step(st, h, view, rs, notes, held)
         after = json.dumps(hobs.dump(h), sort_keys=True, default=repr)
-        return {"view": view, "rs": rs, "unchanged": before == after, "prog": p, "hist_notes": notes}
+        return {"view": view, "rs": rs, "unchanged": before == after, "prog": p, "hist_notes": notes,
+                "root_name_not_a_string": odd_name}
 
     def hist_step(self, st, h, view, rs, notes, held):
         """one step of a history (seeded round 5).  `draw` steps are renderings of the HUGR under options that are
@@ -1098,6 +1126,8 @@ class C20(fw.Prop):
         if "error" in obs:
             return "render:" + obs["error"]
         errs = sorted({d["error"].split(":")[0] for _, d in obs["rs"] if "error" in d})
+        if errs == ["TypeError"] and obs.get("root_name_not_a_string"):
+            return "render:raises:TypeError:root-name-not-a-string"
         if errs:
             return "render:raises:" + ",".join(errs) + (":reloaded" if case.get("reload") else "")
         if not obs["unchanged"]:
@@ -1143,6 +1173,9 @@ class C20(fw.Prop):
                 yield {**rest, "degprog": q, "reload": bool(rest.get("reload")) and deg_reloadable(q)}
         if case.get("hist"):
             yield from ({**case, "hist": hh} for hh in shrink_history(case["hist"]))
+        if case.get("md"):
+            for i in range(len(case["md"])):
+                yield {**case, "md": case["md"][:i] + case["md"][i + 1:]}
         if len(case.get("cfgs", [])) > 1:
             for c in case["cfgs"]:
                 yield {**case, "cfgs": [c]}
@@ -1175,6 +1208,9 @@ class C20(fw.Prop):
              "hugrs_without_any_link": 0, "hugrs_without_any_link_but_with_ports": 0, "hugrs_of_a_single_node": 0,
              "hugrs_with_a_linkless_node_that_has_ports": 0, "hugrs_with_an_unlinked_port_below_a_linked_one": 0,
              "hugrs_with_a_container_operation_without_children": 0,
+             "hugrs_with_added_metadata": sum(1 for c in cases if c.get("md")),
+             "hugrs_with_a_root_name": sum(1 for c in cases if any(m[0] == "root" and m[1] == "name" for m in c.get("md", []))),
+             "hugrs_with_a_truthy_root_name_that_is_not_a_string": sum(1 for o in observations if o.get("root_name_not_a_string")),
              "history_cases": sum(1 for c in cases if c.get("hist")),
              "history_steps_by_kind": {}, "history_judged_renderings_by_path": {},
              "history_cases_with_an_extension_operation": 0, "history_notes": {}}
@@ -2009,6 +2045,27 @@ def gen_history(rng, phases):
         if rng.random() < 0.25:
             steps.append(judged())
     return steps
+
+
+MD_KEYS = ["name", "name", "name", "label", "id", "title", "author", "color"]
+MD_STRINGS = ["simple_id", "main", "a b", "digraph", "node", "x<y", "7", "\u00fc", "a-b", "", "strict", "cluster0", "in.0"]
+MD_OTHER = [5, 0, None, True, ["l", 1], {"a": 1}, 2.5]
+
+
+def gen_md(rng):
+    """metadata put on after building: [selector, key, value] with selector "root" or a position in list(hugr).
+    The root's "name" is the graph identifier: strings of every spelling DOT quotes; values that are not strings only
+    now and then (known finding: TypeError on the unchanged tree when truthy)"""
+    md = []
+    if rng.random() < 0.75:
+        md.append(["root", "name", rng.choice(MD_OTHER) if rng.random() < 0.04 else rng.choice(MD_STRINGS)])
+    for _ in range(rng.randint(0 if md else 1, 3)):
+        sel = "root" if rng.random() < 0.4 else rng.randrange(40)
+        key = rng.choice(MD_KEYS)
+        if sel == "root" and key == "name":
+            key = "label"
+        md.append([sel, key, rng.choice(MD_STRINGS) if rng.random() < 0.7 else rng.choice(MD_OTHER)])
+    return md
 
 
 def shrink_history(hist):
